@@ -10,7 +10,7 @@ use super::sendbody::send_body_flow;
 use crate::driver::AnyFlow;
 use crate::engine::{explore, guarded, pattern, validate_traces, Limits, Report, Sys, Tier, Violation};
 
-pub const RULE: &str = "E1: for every N in 0..=12 (POST) and N in 0..=3 (GET with send-body-despite-method) the complete graph of the real sized writer: from every reachable state every write(i,b) with i,b in 0..=N+2, every consume_direct_write(k), k in 0..=N+2, readiness vs proceed-on-a-clone in every state. E2: every N in 0..=70000 (fresh flow with Content-Length: N) x boundary steps i,b,k in {0,1,N-1,N,N+1} from the initial state and from the states left in {N-1,1,0} reached by a direct-write report; large N in {2^16+-1,2^31+-1,2^32+-1,2^63,u64::MAX-1,u64::MAX}. distinct = distinct (N class, op, accepted/refused, left' class) cells";
+pub const RULE: &str = "E1: for every N in 0..=12 (POST) and N in 0..=3 (GET with send-body-despite-method; also on a flow obtained by following a redirect whose original request declared a different length) the complete graph of the real sized writer: from every reachable state every write(i,b) with i,b in 0..=N+2, every consume_direct_write(k), k in 0..=N+2, readiness vs proceed-on-a-clone in every state. E2: every N in 0..=70000 (fresh flow with Content-Length: N) x boundary steps i,b,k in {0,1,N-1,N,N+1} from the initial state and from the states left in {N-1,1,0} reached by a direct-write report; large N in {2^16+-1,2^31+-1,2^32+-1,2^63,u64::MAX-1,u64::MAX}. distinct = distinct (N class, op, accepted/refused, left' class) cells";
 
 #[derive(Clone, Debug, PartialEq)]
 pub enum Op {
@@ -153,7 +153,33 @@ impl Sys for St {
     }
 }
 
+/// A flow obtained by following a redirect of a POST that declared Content-Length 10; on the new
+/// (GET) flow the caller converts to send a body and declares Content-Length n.
+fn mk_redirected_flow(n: u64) -> Flow<(), SendBody> {
+    use crate::chain::{follow, Followed, Loc};
+    let orig = crate::driver::ReqCfg::new("POST", "1.1", "http://a.test/p").orig("content-length", "10").orig("x-keep", "1");
+    let pf = orig.build_prepare().expect("prepare");
+    let nf = match follow(&pf, b"0123456789", 302, &Loc::one("/next"), false).expect("follow") {
+        Followed::New(f) => f,
+        _ => panic!("harness: redirect not followed"),
+    };
+    let mut nf = nf;
+    nf.send_body_despite_method();
+    nf.header("content-length", n.to_string().as_str()).expect("header");
+    let mut sr = nf.proceed();
+    let mut buf = vec![0u8; 1024];
+    sr.write(&mut buf).expect("head");
+    match AnyFlow::SendRequest(sr).proceed() {
+        Ok(Some(AnyFlow::SendBody(f))) => f,
+        _ => panic!("harness: expected SendBody"),
+    }
+}
+
 fn mk_flow(n: u64, despite: bool) -> Flow<(), SendBody> {
+    if despite && n >= 1000 {
+        // encoding: despite + n >= 1000 means "redirected flow with its own Content-Length n - 1000"
+        return mk_redirected_flow(n - 1000);
+    }
     if despite {
         super::sendbody::send_body_flow_despite_len("GET", n)
     } else {
@@ -261,7 +287,21 @@ fn ops_json(t: &[Op]) -> Value {
 fn large_n(n: u64, rep: &mut Report) {
     // no data is copied beyond 2 bytes: states near the end are reached by direct-write reports
     let mut seqs: Vec<Vec<Op>> = Vec::new();
-    let near: Vec<u64> = vec![0, 1, 2, n - 2, n - 1, n];
+    let mut near: Vec<u64> = vec![0, 1, 2, n - 2, n - 1, n];
+    // states whose remaining count is an exact multiple of 2^32 (or just around one)
+    for k in 1..=3u64 {
+        let m = k << 32;
+        if n >= m {
+            for d in [0u64, 1] {
+                if n - m >= d {
+                    near.push(n - m - d);
+                }
+                near.push((n - m).saturating_add(d).min(n));
+            }
+        }
+    }
+    near.sort();
+    near.dedup();
     for pre in &near {
         for k in [0u64, 1, 2, n - pre.min(&n), (n - pre.min(&n)).saturating_add(1), n, n.saturating_add(1), u64::MAX] {
             seqs.push(vec![Op::Direct(*pre as usize), Op::Direct(k as usize)]);
@@ -315,12 +355,15 @@ pub fn run(tier: Tier) -> Report {
     let mut graph_jobs: Vec<(u64, bool)> = (0..=12u64).map(|n| (n, false)).collect();
     // the same writer reached through send_body_despite_method() on a body-less method
     graph_jobs.extend((0..=3u64).map(|n| (n, true)));
+    // ... and on a flow obtained by following a redirect, with a length of its own (the original declared 10)
+    graph_jobs.extend([1004u64, 1000, 1012].into_iter().map(|n| (n, true)));
     let graphs: Vec<Report> = graph_jobs
         .into_par_iter()
         .map(|(n, despite)| {
             let mut rep = Report::new();
             let _g = crate::engine::watch(|| format!("C04 graph N={} despite={}", n, despite));
-            let fresh = || St { f: mk_flow(n, despite), n, left: n, signalled: false, max_arg: n as usize + 2 };
+            let model_n = if despite && n >= 1000 { n - 1000 } else { n };
+            let fresh = || St { f: mk_flow(n, despite), n: model_n, left: model_n, signalled: false, max_arg: model_n as usize + 2 };
             let ex = explore(fresh(), &Limits { max_states: 100_000, keep_state_traces: 6, ..Default::default() });
             rep.states += ex.states;
             rep.transitions += ex.transitions;
@@ -396,7 +439,7 @@ pub fn run(tier: Tier) -> Report {
     for p in parts {
         rep.merge(p);
     }
-    for n in [65535u64, 65537, (1 << 31) - 1, (1 << 31) + 1, (1u64 << 32) - 1, (1u64 << 32) + 1, 1u64 << 63, u64::MAX - 1, u64::MAX] {
+    for n in [65535u64, 65536, 65537, (1 << 31) - 1, 1 << 31, (1 << 31) + 1, (1u64 << 32) - 1, 1u64 << 32, (1u64 << 32) + 1, (1u64 << 32) + 5000, 1u64 << 33, 3u64 << 32, 1u64 << 63, u64::MAX - 1, u64::MAX] {
         match guarded(|| {
             let mut r = Report::new();
             large_n(n, &mut r);
@@ -420,7 +463,9 @@ pub fn replay(v: &Value) -> Result<Option<String>, String> {
     let n: u64 = v["n"].as_str().ok_or("n")?.parse().map_err(|_| "n")?;
     match v["kind"].as_str().ok_or("kind")? {
         "ops" => {
-            let mut f = mk_flow(n, v["despite"].as_bool().unwrap_or(false));
+            let despite = v["despite"].as_bool().unwrap_or(false);
+            let mut f = mk_flow(n, despite);
+            let n = if despite && n >= 1000 { n - 1000 } else { n };
             let mut left = n;
             let mut sig = false;
             let maxlen = 70_010usize;
